@@ -14,26 +14,30 @@ import copy
 import io
 import json
 import struct
-import traceback
 from pathlib import Path
 
 from ..runner import Engine, Outcome
 
 PROPERTY = "C04"
 RULE = ("fixture_roundtrip enumerates, for every tests/fixtures/**/*.mp4: the whole file, every init/media-segment "
-        "window (loaded through the repository's windowed BufferedReader as load_fragment does) and the set of nested "
-        "boxes of context-free classes, each parsed alone. generated_boxes: Hypothesis draws a file spec (init "
-        "segment with 1-2 tracks of any modelled sample entry, clear or encrypted with 8/16-byte or constant IV; "
-        "0-2 fragments with any tfhd/trun flag combination, five base-offset layouts, multi-run and multi-track "
-        "fragments, senc/saiz/saio/PIFF in any order; or a soup of file-level boxes), field values from boundary "
-        "sets (0, 1, 2^k-1, 2^k, 2^(k-1)) and uniform ranges, 1 in 25 boxes with a 64-bit largesize header, 1 in 12 "
-        "files ending in a size==0 box; the independent writer turns it into bytes. Per tree: load+encode in mode "
-        "r/rw x lazy on/off, lazy tree touched everywhere then encoded, eager-vs-lazy toJSON equality, rw tree with "
-        "every field assigned to itself, fromJSON(toJSON()) encoded. edit_sequences: Hypothesis draws a base tree "
-        "(fixture window or generated file) and <= 6 edit steps; the case is the explicit step list. Non-trivial: "
-        "fixture case with >= 2 modelled classes; generated tree with >= 2 distinct box classes or a (class, version, "
-        "flags) absent from every fixture; edit case in which >= 1 step changed the encoded bytes. distinct = "
-        "canonical JSON of the case; out.weight = boxes x passes.")
+        "window (loaded through the repository's windowed BufferedReader as load_fragment does, plus as a byte string) "
+        "and the set of nested boxes of context-free classes, each parsed alone. generated_boxes: Hypothesis draws a "
+        "file spec (init segment with 1-2 tracks of any modelled sample entry, clear or encrypted with 8/16-byte or "
+        "constant IV; 0-2 fragments with any tfhd/trun flag combination, five base-offset layouts, multi-run and "
+        "multi-track fragments, senc/saiz/saio/PIFF in any order; or a soup of file-level boxes), field values from "
+        "boundary sets (0, 1, 2^k-1, 2^k-2, 2^(k-1), 2^(k-1)-1, 2^32+-1 for 64-bit fields) and uniform ranges; 1 in 25 "
+        "boxes asks for a 64-bit largesize header and 1 in 12 files for a final size==0 box - those header forms are "
+        "judged on variants of the tree so that the tree with ordinary headers always goes through the full oracle. "
+        "The independent writer turns a spec into bytes. Per tree: load+encode in mode r/rw x lazy on/off, lazy tree "
+        "touched everywhere then encoded, eager-vs-lazy toJSON equality, rw tree with every public field assigned to "
+        "itself, fromJSON(toJSON()) encoded; a difference is attributed to the innermost box (and field) that differs; "
+        "a rewritten position-dependent field in a fragment that moved because another box changed length is not "
+        "reported on its own. edit_sequences: Hypothesis draws a base tree (fixture window or generated file that the "
+        "library parses, encodes and re-parses without error) and 2-8 edit steps; the case is the explicit step list, "
+        "steps whose target does not exist in the base are skipped. Non-trivial: fixture case with >= 2 modelled "
+        "classes; generated tree with >= 2 distinct box classes or a (class, version, flags) absent from every fixture; "
+        "edit case in which >= 1 step changed the encoded bytes. distinct = canonical JSON of the case; out.weight = "
+        "boxes x passes (edit: steps performed).")
 ASSUMPTIONS = [
     "vt/isowrite.py (struct only, written from ISO/IEC 14496-12/-15/-1/-30, 23001-7, 23009-1, ETSI TS 102 366, PIFF 1.1) "
     "is the reference for what a well-formed box is; reserved bits and fields are always written as the specifications require",
@@ -281,7 +285,10 @@ def roundtrip_oracle(data: bytes, iv_size, src_kind: str, out: Outcome, infos=No
 
     raised: set = set()
 
+    compared: set = set()
+
     def compare(tag, produced):
+        compared.add(tag)
         if produced == data:
             return
         for label, what, detail in isowrite.blame(data, produced, infos):
@@ -360,7 +367,8 @@ def roundtrip_oracle(data: bytes, iv_size, src_kind: str, out: Outcome, infos=No
             what = what[len("consequence:"):]
         which = "roundtrip-lazy-only" if tags <= {"r-lazy", "rw-lazy"} else "roundtrip"
         out.fail(f"{label}/{which}/{what}", f"{ctx} passes {sorted(tags)}: {detail}")
-    jf = json_found or []
+    # a JSON-only difference can only be told from an encoder difference when the parsed tree itself was compared
+    jf = (json_found or []) if "r-eager" in compared else []
     jcauses = [r for r in jf if not r[1].startswith("consequence:")]
     for label, what, detail in jf:
         if what.startswith("consequence:"):
@@ -431,16 +439,6 @@ def _fixture(rel: str):
         groups = ([init] if init else []) + frags
         _fx_cache[rel] = (data, tops, iv, groups)
     return _fx_cache[rel]
-
-
-def fixture_iv(rel: str):
-    # the IV size the indexer records for the stream; fragments of an encrypted stream are opened with it
-    return _fixture(rel)[2]
-
-
-def stream_iv(rel: str):
-    """IV size for a media file: its own tenc, else the tenc of a sibling init (enc fixtures carry their own)."""
-    return fixture_iv(rel)
 
 
 def check_fixture(case) -> Outcome:
@@ -555,39 +553,92 @@ def fixture_cvf() -> set:
     return _fixture_cvf
 
 
+def _with_forms(boxes, keep: set):
+    """copy of the spec list in which only the header forms in `keep` survive ("64", "0")."""
+    out = []
+    for b in boxes:
+        c = {k: v for k, v in b.items() if k != "hdr" or v in keep}
+        if "c" in c:
+            c["c"] = _with_forms(c["c"], keep)
+        out.append(c)
+    return out
+
+
+def _has_form(boxes, form) -> bool:
+    return any(b.get("hdr") == form or _has_form(b.get("c", []), form) for b in boxes)
+
+
+def largesize_oracle(data: bytes, iv_size, src_kind: str, out: Outcome, plain_sigs: set) -> int:
+    """The same tree as the plain variant, some boxes written with size==1 and a 64-bit largesize.  Header forms
+    are judged on their own: what the plain variant already shows is not repeated, and whatever else goes wrong
+    only in this variant is a consequence of the header handling and carries its name."""
+    from .. import isowrite
+    n = 0
+    for mode, lazy in MODES:
+        tag = f"{mode}-{'lazy' if lazy else 'eager'}"
+        n += 1
+        try:
+            w = _load(data, mode, lazy, iv_size, src_kind)
+        except Exception as exc:
+            box, where = _exc_box(exc)
+            if f"{box}/raises/{_exc_name(exc)}/in-{_phase(exc)}" not in plain_sigs:
+                out.fail("header/largesize/parse-raises", f"{tag}: {exc!r} at {where} (the same tree with 32-bit sizes parses)")
+            continue
+        try:
+            produced = w.encode()
+        except Exception as exc:
+            box, where = _exc_box(exc)
+            if f"{box}/raises/{_exc_name(exc)}/in-{_phase(exc)}" not in plain_sigs:
+                out.fail("header/largesize/encode-raises", f"{tag}: {exc!r} at {where} (the same tree with 32-bit sizes encodes)")
+            continue
+        if produced != data:
+            for label, what, detail in isowrite.blame(data, produced):
+                if label == "header":
+                    out.fail(f"header/{what.replace('size32', '32bit')}", f"{tag}: {detail}; {len(data)} bytes in, {len(produced)} out")
+    return n
+
+
 def check_generated(case) -> Outcome:
     from .. import isowrite
     mp4, _ = _lib()
     out = Outcome()
-    data, infos = isowrite.build_file(case["boxes"])
+    iv, src = case.get("iv_size"), case.get("src", "br")
+    # header forms are an orthogonal dimension: the tree with ordinary 32-bit sizes goes through the full oracle,
+    # the 64-bit and the size==0 variants through their own
+    plain = _with_forms(case["boxes"], set())
+    data, infos = isowrite.build_file(plain)
     _, sig, det = isowrite.check_structure(data)
     if sig:        # the writer produced something ill-formed: machinery problem, never a finding
         raise AssertionError(f"isowrite produced an ill-formed file: {sig}: {det}")
-    n = 0
+    n = roundtrip_oracle(data, iv, src, out, infos, "generated")
+    plain_sigs = {s for s, _ in out.violations}
+    if _has_form(case["boxes"], "64"):
+        d64, infos = isowrite.build_file(_with_forms(case["boxes"], {"64"}))
+        n += largesize_oracle(d64, iv, src, out, plain_sigs)
     if case["boxes"][-1].get("hdr") == "0":
-        # the same tree with an ordinary header on its last box goes through the full oracle; the size==0 form
-        # is judged on its own so that everything that follows from it carries one name
-        n += size0_oracle(data, case.get("iv_size"), case.get("src", "br"), out)
-        plain = [*case["boxes"][:-1], {k: v for k, v in case["boxes"][-1].items() if k != "hdr"}]
-        data, infos = isowrite.build_file(plain)
-    n += roundtrip_oracle(data, case.get("iv_size"), case.get("src", "br"), out, infos, "generated")
+        d0, _ = isowrite.build_file(_with_forms(case["boxes"], {"0"}))
+        n += size0_oracle(d0, iv, src, out)
     labels = set()
     new = False
     known = fixture_cvf()
     for i in infos:
         labels.add(i["label"])
         cvf = (i["label"], i["version"], i["flags"])
-        out.note("covered", f"{i['label']} v{i['version']} f{i['flags']:#x}" if i["version"] is not None else i["label"])
+        tup = f"{i['label']} v{i['version']} f{i['flags']:#x}" if i["version"] is not None else i["label"]
+        out.note("covered", tup)
+        out.cls("cvf:" + tup)       # evidence keeps every class but only the 60 most frequent notes
         if cvf not in known:
             new = True
         if i["form"] != "32":
-            out.cls("header:" + {"64": "largesize", "0": "size0"}[i["form"]])
+            out.cls("header:largesize")
         sp = i["spec"]
         if i["label"] == "moof":
             out.cls("layout:" + sp.get("_layout", "?"), "shape:" + sp.get("_shape", "?"))
+    if case["boxes"][-1].get("hdr") == "0":
+        out.cls("header:size0")
     for c in sorted(labels):
         out.cls("class:" + c)
-    out.cls("iv:" + str(case.get("iv_size")), "src:" + case.get("src", "br"))
+    out.cls("iv:" + str(iv), "src:" + src)
     for name in sorted(mp4.fourcc.BOXES):
         if name not in isowrite.GENERATED_CLASSES:
             out.note("ungenerated_box_class", name)
@@ -601,7 +652,7 @@ class GeneratedBoxes(Engine):
     name = "generated_boxes"
 
     def budget(self, tier):
-        return 6000 if tier == "quick" else 300_000
+        return 4000 if tier == "quick" else 300_000
 
     def strategy(self, tier):
         from .. import app, isowrite
@@ -610,8 +661,6 @@ class GeneratedBoxes(Engine):
 
     def check(self, case):
         return check_generated(case)
-
-
 
 
 # --------------------------------------------------------------------------- engine 3: edit sequences
@@ -690,7 +739,6 @@ class _Skip(Exception):
 def _apply_step(mp4, wrap, step, model, note):
     """Performs one edit the way its real caller does.  Raises _Skip when the tree does not have what the step
     needs (a precondition, not a finding).  Returns a description of what must be observable afterwards."""
-    from dashlive.utils.binary import Binary
     op = step["op"]
     expect = {"op": op}
     if op == "touch":
@@ -848,7 +896,7 @@ def _edit_base(case):
         data, tops, iv, groups = _fixture(base["file"])
         g = groups[base["group"]]
         return data[g[0].start:g[-1].end], iv
-    data, _ = isowrite.build_file(base["boxes"])
+    data, _ = isowrite.build_file(_with_forms(base["boxes"], set()))
     return data, base.get("iv_size")
 
 
@@ -904,7 +952,8 @@ def check_edits(case) -> Outcome:
             changed += 1
         boxes, sig, det = isowrite.check_structure(cur)
         if sig:
-            out.fail(f"edit/{op}/{sig}", f"step {si} {step} ({target}): {det}")
+            # named after what is wrong with the output, not after the step: a box that encodes wrongly shows after any step
+            out.fail(f"edit/{sig}", f"step {si} {step} ({target}): {det}")
             break
         # what the step added or removed is there / gone, everything else keeps its count
         if "added" in expect:
@@ -915,10 +964,17 @@ def check_edits(case) -> Outcome:
             t = expect["removed"]
             if _count(boxes, t) >= _count(before, t):
                 out.fail(f"edit/{op}/box-not-removed", f"step {si} {step}")
+        if op == "insert_tfdt":
+            kinds = [isowrite.box_label(c) for c in _find(boxes, ["moof", "traf"]).children]
+            if kinds[kinds.index("tfhd") + 1:][:1] != ["tfdt"]:
+                out.fail("edit/insert_tfdt/box-at-wrong-position", f"step {si}: {kinds}")
         if "pssh" in expect:
             e = expect["pssh"]
             parent = _find(boxes, [e["where"]])
             cands = [b for b in parent.children if b.type == b"pssh"]
+            at = parent.children[-1] if e["last"] else parent.children[0]
+            if at.type != b"pssh":
+                out.fail(f"edit/{op}/box-at-wrong-position", f"step {si}: {[isowrite.box_label(c) for c in parent.children]}")
             got = isobox.pssh(cands[-1] if e["last"] else cands[0]) if cands else None
             want = {"version": e["version"], "system_id": e["system_id"], "kids": e["kids"], "data": e["data"]}
             if got != want:
@@ -936,8 +992,10 @@ def check_edits(case) -> Outcome:
             traf = _find(boxes, ["moof", "traf"])
             kinds = [isowrite.box_label(c) for c in traf.children]
             senc_b = next(c for c in traf.children if c.type == b"senc")
-            piff_b = next(c for c in traf.children if isowrite.box_label(c) == "uuid-piff")
-            if senc_b.payload != piff_b.payload:
+            first_saiz = kinds.index("saiz")
+            if first_saiz == 0 or kinds[first_saiz - 1] != "uuid-piff":
+                out.fail("edit/insert_piff/box-at-wrong-position", f"step {si}: {kinds}")
+            elif senc_b.payload != traf.children[first_saiz - 1].payload:     # the clone sits right before the saiz
                 out.fail("edit/insert_piff/body-differs-from-senc", f"step {si}: {kinds}")
         # every value assigned so far (and not overwritten or deleted) is what an independent reader finds
         for (path, field), value in sorted(model.items(), key=repr):
@@ -1079,7 +1137,7 @@ class EditSequences(Engine):
     name = "edit_sequences"
 
     def budget(self, tier):
-        return 4000 if tier == "quick" else 200_000
+        return 2800 if tier == "quick" else 200_000
 
     def strategy(self, tier):
         return _edit_strategy()
